@@ -283,8 +283,8 @@ Definition resume_check (c : case) (f : finished) (w : world) : result unit :=
       | Err _ => Err ValueError                                        (* "Could not load previous run info" *)
       | Ok (li, _) =>
           let old := li_info li in
-          let user := match user_internal c with [] => None | d => Some d end in   (* the argument as passed *)
-          if sx_eqb (sx_internal user) (sx_internal (ri_internal_shapes old))
+          (* the constructed internal shapes (argument + PipeFunc.internal_shape), as recorded for this run *)
+          if sx_eqb (sx_internal (ri_internal_shapes (f_info f))) (sx_internal (ri_internal_shapes old))
              && list_eqb str_eqb (ri_mapspecs (f_info f)) (ri_mapspecs old)
              && sx_eqb (sx_odict (fun sh => SL (map SN sh)) (ri_shapes (f_info f))) (sx_odict (fun sh => SL (map SN sh)) (ri_shapes old))
              && sx_eqb (sx_inputs (map (fun kv => (fst kv, PVal (snd kv))) (c_inputs c))) (sx_inputs (li_inputs li))
